@@ -661,7 +661,7 @@ def shards(tier):
 
 
 def run_shard(spec, ctx):
-    run_given(cases(), body, ctx, ctx.pick(260, 1200))
+    run_given(cases(), body, ctx, ctx.pick(260, 3000))
 
 
 def replay(data, col):
